@@ -9,6 +9,7 @@ explicit whitespace `Text` and comments are items. It is what tree-sitter delive
                   | `(` items closeGap `)`            (comments and exactly one expression)
                   | expr (gap comment)* gap expr      (function application)
                   | (`with` | `assert`) (gap comment)* gap expr (gap comment)* gap `;` (gap comment)* gap expr
+                  | (`!` | `-`) (gap comment)* gap expr      (unary operator)
                   | name (gap comment)* gap `:` gap expr      (lambda with an identifier argument)
                   | expr (gap comment)* gap `.` gap name (`.` name)* [(gap comment)* gap `or` gap expr]      (select)
     list items    : (gap comment | gap expr)*
@@ -55,6 +56,8 @@ inductive Cst where
   | selOr (e : Cst) (c1 : GC) (g1 : Text) (gd : Text) (attrs : List Text) (c2 : GC) (g2 : Text) (g3 : Text) (d : Cst)
   /-- name c1 g1 `:` c2 g2 body — `function_expression` with an identifier argument (no formals) -/
   | lam (name : Text) (c1 : GC) (g1 : Text) (c2 : GC) (g2 : Text) (body : Cst)
+  /-- operator c g operand — `unary_expression` (`!`, `-`) -/
+  | un (op : Text) (c : GC) (g : Text) (e : Cst)
 inductive Items where
   | nil
   /-- gap, comment token -/
@@ -97,6 +100,7 @@ def Cst.flatten : Cst → Text
   | .selOr e c1 g1 gd attrs c2 g2 g3 d =>
     e.flatten ++ flattenGC c1 ++ g1 ++ '.' :: gd ++ attrText attrs ++ flattenGC c2 ++ g2 ++ ['o', 'r'] ++ g3 ++ d.flatten
   | .lam n c1 g1 c2 g2 b => n ++ flattenGC c1 ++ g1 ++ ':' :: flattenGC c2 ++ g2 ++ b.flatten
+  | .un op c g e => op ++ flattenGC c ++ g ++ e.flatten
 def Items.flatten : Items → Text
   | .nil => []
   | .cmt g t rest => g ++ t ++ rest.flatten
@@ -149,6 +153,7 @@ def Cst.lex : Cst → List Lex
   | .sel e c1 _ _ attrs => e.lex ++ lexGC c1 ++ attrLex attrs
   | .selOr e c1 _ _ attrs c2 _ _ d => e.lex ++ lexGC c1 ++ attrLex attrs ++ lexGC c2 ++ .tok ['o', 'r'] :: d.lex
   | .lam n c1 _ c2 _ b => .tok n :: lexGC c1 ++ .tok [':'] :: lexGC c2 ++ b.lex
+  | .un op c _ e => .tok op :: lexGC c ++ e.lex
 def Items.lex : Items → List Lex
   | .nil => []
   | .cmt _ t rest => .cmt t :: rest.lex
@@ -250,6 +255,9 @@ def attrSegOk (a : Text) : Bool :=
 /-- the argument of a simple lambda: an identifier -/
 def lamNameOk (n : Text) : Bool := !n.isEmpty && n.all isIdentChar
 
+/-- a unary operator of Nix -/
+def unOpOk (op : Text) : Bool := op == ['!'] || op == ['-']
+
 /-- where an item sequence sits -/
 inductive Mode where
   | file | list | set | paren
@@ -287,6 +295,8 @@ def Cst.wf : Cst → Bool
       isGap g3 && d.wf
   -- `x: body`: whitespace only around the `:`
   | .lam n c1 g1 c2 g2 b => lamNameOk n && c1.isEmpty && isGap g1 && c2.isEmpty && isGap g2 && b.wf
+  -- `!e` / `-e`: whitespace only between operator and operand
+  | .un op c g e => unOpOk op && c.isEmpty && isGap g && e.wf
 /-- `closeGap`: the whitespace after the last item (in front of the closing token / the end of the
     file) -/
 def Items.wf : Items → Mode → Text → Bool
@@ -318,6 +328,7 @@ def Cst.modelled : Cst → Bool
     e.modelled && gcOk c1 g1 && isGap g1 && isGap gd && !attrs.isEmpty && attrs.all attrSegOk && gcOk c2 g2 &&
       isGap g2 && isGap g3 && d.modelled
   | .lam n c1 g1 c2 g2 b => lamNameOk n && gcOk c1 g1 && isGap g1 && c2.isEmpty && isGap g2 && b.modelled
+  | .un op c g e => unOpOk op && gcOk c g && isGap g && e.modelled
 def Items.modelled : Items → Mode → Text → Bool
   | .nil, _, _ => true
   | .cmt g t rest, m, cg =>
